@@ -269,29 +269,13 @@ def emptyOperatorCheck (cfg : Cfg) (document : Fields) : R Unit :=
       | none => false) then .error .writeErr
   else .ok ()
 
-/-- the operators `_apply_update` implements itself, next to the `_updaters` table -/
-def selfImplementedOperators : List String :=
-  ["$rename", "$setOnInsert", "$currentDate", "$addToSet", "$pull", "$pullAll", "$push"]
-
-def knownUpdateOperator (k : String) : Bool :=
-  (updaterOf k).isSome || selfImplementedOperators.contains k
-
-/-- `_validate_update_operators(document)` (collection.py): the keys in order; a known operator is
-    passed over; an unknown key after the first is refused (ValueError "Invalid modifier
-    specified"); an unknown first key is refused when some key starts with `$` (ValueError "field
-    names cannot start with $"), else the document is a replacement and the walk stops.
-    `first` = the walk is at index 0.  (Defined here until the Update model provides it: the
-    ORDER of this check relative to the store accesses is what the Store model needs.) -/
-def validateOperatorsFrom (whole : Fields) : Fields → Bool → R Unit
-  | [], _ => .ok ()
-  | (k, _) :: rest, first =>
-    if knownUpdateOperator k then validateOperatorsFrom whole rest false
-    else if !first then .error .valueErr
-    else if whole.any (fun kv => kv.1.startsWith "$") then .error .valueErr
-    else .ok ()
-
-def validateUpdateOperators (document : Fields) : R Unit :=
-  validateOperatorsFrom document document true
+/-- `_validate_update_operators(document)` (collection.py): the walk over the operator names lives
+    in the Update model (`Update.validateOps`: a known operator is passed over; an unknown key after
+    the first is refused, ValueError "Invalid modifier specified"; an unknown first key is refused
+    when some key starts with `$`, ValueError "field names cannot start with $", else the document
+    is a replacement and the walk stops).  The ORDER of this check relative to the store accesses
+    is what the Store model adds. -/
+def validateUpdateOperators (document : Fields) : R Unit := validateOps document
 
 /-- what `_apply_update` checks of the update document before any document is looked for: the
     pre-5.0 "empty operator" WriteError, then the operator names -/
@@ -347,17 +331,12 @@ def updateLoop (now : Int) (spec document : Val) (nowV : Val) (multi : Bool) :
                 if multi then updateLoop now spec document nowV multi rest c2 (matched + 1) (updated + 1)
                 else (c2, .ok (matched + 1, updated + 1))
 
-/-- the document an upsert inserts: the seed built from the filter (`_expand_dots`,
-    `_discard_operators`) with the update applied to it as to an inserted document -/
+/-- the document an upsert inserts: the seed built from the filter's equality conditions
+    (`Update.upsertSeed`: `_discard_operators` first, then `_expand_dots` on what is left) with the
+    update applied to it as to an inserted document -/
 def upsertDoc (spec document nowV : Val) (ss : Fields) (idv : Val) : R Val := do
-  let expanded ← expandDots (dset "_id" idv ss)
-  let seed := (discardOps (.doc expanded)).1
-  -- `_expand_dots` stores the filter's `_id` sub-document by reference and writes
-  -- the `_id.x` conditions into it: `spec['_id']` is that same, now larger, object
-  let spec' := match dget "_id" ss, dget "_id" expanded with
-    | some (.doc _), some (.doc e) => Val.doc (dset "_id" (.doc e) ss)
-    | _, _ => spec
-  applyUpdate spec' document nowV true seed
+  let seed ← upsertSeed ss idv
+  applyUpdate spec document nowV true seed
 
 /-- `_update` / `_apply_update(spec, document, upsert, multi)`; options are checked by the callers.
     (The rollback of `_update` re-assigns the snapshot with `self._store[key] = snapshot`, which
